@@ -8,7 +8,7 @@ ID = 'C04'
 WATCHDOG_IS_VIOLATION = True   # the statement says the run ends / the line reaches its horizon
 RULE = ('Hypothesis-generated serial lines: 0-6 stations (quick) / 0-10 (thorough), each PartHandler / PartProcessor '
         '(cycle c) or Buffer (delay c, capacity K in {1,2,3,5,inf}); source cycle c0 (0 only with a finite budget), '
-        'budget in {0, 1..20, inf}; sink cycle; all times on the dyadic grid {0,1/4,1/2,1,3/2,2,3}; horizon on the grid; '
+        'budget in {0, 1..20, fractional 0.5/2.5/7.25, inf}; sink cycle; all times on the dyadic grid {0,1/4,1/2,1,3/2,2,3}; horizon on the grid; '
         'tie-break policy random/fifo/lifo/const. Oracle: independent max-plus reference written from the statement '
         '(D(j,k) = max(ready(j,k), free(j+1,k)), free = D(j+1,k-K), sink frees c after receipt, source restarts when '
         'the part leaves) compared EXACTLY with the received_part time list of every station and the sink, and the '
@@ -37,7 +37,7 @@ def cases(max_len, horizons):
         budget = budget_fin if (c0 == 0 or not budget_inf) else 'inf'
         return {'src': [c0, budget], 'stations': stations, 'sink': sink, 'T': T, 'tb': [pol, seed]}
     return st.builds(build, st.lists(station(), min_size=0, max_size=max_len), st.sampled_from(GRID), st.booleans(),
-                     st.sampled_from([0, 1, 2, 3, 5, 9, 14, 20]), st.sampled_from(GRID), st.sampled_from(horizons),
+                     st.sampled_from([0, 1, 2, 3, 5, 9, 14, 20, 2.5, 7.25, 0.5]), st.sampled_from(GRID), st.sampled_from(horizons),
                      st.sampled_from(['random', 'fifo', 'lifo', 'const']), st.integers(0, 10 ** 6))
 
 
@@ -50,7 +50,7 @@ def refill_cases(max_len, horizons):
         case['refills'] = [list(r) for r in refills]
         case['refill_prio'] = prio
         return case
-    return st.builds(build, cases(max_len, horizons), st.sampled_from([0, 0, 1, 2, 3, 5]),
+    return st.builds(build, cases(max_len, horizons), st.sampled_from([0, 0, 1, 2, 3, 5, 1.5, 0.75]),
                      st.lists(st.tuples(st.sampled_from([0, 0.5, 1, 2, 2.5, 4, 7, 10, 13, 19.5]), st.sampled_from([1, 1, 2, 3, 6])),
                               min_size=1, max_size=4),
                      st.sampled_from([2, 2, 5, 7, 10, 4.5, 1.5]))
